@@ -230,7 +230,11 @@ fn gen_comment_file(lang: &str, rng: &mut Rng, eol: &str) -> GenFile {
 fn gen_markdown(rng: &mut Rng, eol: &str, title_ignored: bool, git: bool) -> GenFile {
     let mut g = GenFile::default();
     let blocks = rng.range(2, 7);
+    let mut last_was_list = false;
     for _ in 0..blocks {
+        let was_list = last_was_list;
+        last_was_list = false;
+        let _ = was_list;
         match rng.below(14) {
             0 => {
                 if git {
@@ -254,6 +258,7 @@ fn gen_markdown(rng: &mut Rng, eol: &str, title_ignored: bool, git: bool) -> Gen
                     g.prose(rng, "list-item", 2, 5, (1, 4));
                 }
                 g.construct("list");
+                last_was_list = true;
             }
             2 => {
                 g.prose(rng, "paragraph", 1, 3, (0, 1));
@@ -367,7 +372,7 @@ fn gen_markdown(rng: &mut Rng, eol: &str, title_ignored: bool, git: bool) -> Gen
                 g.prose(rng, "block-quote", 2, 5, (0, 1));
                 g.construct("block-quote");
             }
-            12 => {
+            12 if !was_list => {
                 g.raw("    ");
                 g.seg(Role::NonProse, "indented-code", &GenFile::junk(rng, "", (1, 3)));
                 g.construct("indented-code");
@@ -653,7 +658,7 @@ pub fn worker(ctx: &mut Ctx) {
     spell.config.set_rule_enabled("SpellCheck", true);
 
     let fes: Vec<Fe> = Fe::all();
-    let n = ctx.budget(24_000, 600_000);
+    let n = ctx.budget(120_000, 3_000_000);
     let mut rng = ctx.rng_global("c04");
     let mut parsers: std::collections::HashMap<Fe, Box<dyn harper_core::parsers::Parser>> = std::collections::HashMap::new();
     let mut per_fe: std::collections::BTreeMap<String, u64> = Default::default();
